@@ -14,6 +14,14 @@ CHECKS.update({
  "C05": ("Coq: bisection loop invariant (adjacent end, every list length <= 2^max_iter with max_iter read from the source), first-feasible and no-larger-than-evaluated theorems for every oracle, solve_root case theorem, ZD selection theorem; same correspondence; root/drilling checked on real designs",
          "distinct evaluated excess values assumed (C05_ties_refuted shows the lookup-by-value behaviour otherwise); ZD 'smallest count' only under monotone excess", "6 C05"),
 })
+CHECKS.update({
+ "C06": ("Coq: month-energy theorem for ALL rational monthly data (all peak-day orderings, pulses present or not, explicit degenerate-duration term), horizon theorem by induction over any number of months; the whole 230-line process_month_loads is translated to Gallina on every run and compared, with the hand model, against the real method segment by segment",
+         "theorems exclude the documented 1e-6 clamp of a negative pulse start; float rounding not modelled (exact Fraction stream + float stream with 1e-9 tolerance)", "6 C06"),
+ "C07": ("Coq: retention window, pulse presence/sign/length/centre theorems, same-day abutment, no-pulse theorems on the month model; same correspondence; magnitudes, days, durations checked on real HybridLoad objects",
+         "the duration's definition via the two-day simulation (Cullin & Spitler) is observed on real objects, not proved; durations > 48 h for sub-100 W loads are a listed known finding", "6 C07"),
+ "C08": ("Coq: calendar helpers regenerated from the source = closed form for every month of a 50-year horizon (complete finite domain), closed form periodic for every month number, every month end a breakpoint (induction over month lists), replication, strict monotonicity under disjoint windows; same correspondence",
+         "single-year load list (the tool's only mode); leap years not modelled (the tool uses 8760-hour years)", "6 C08"),
+})
 NA = {}
 def main():
     checks = []
